@@ -49,6 +49,12 @@ pub enum Out {
     Some(i64, Val),
 }
 
+/// Canonical (build-independent, unit-free) rendering for cross-build trace comparison (C19).
+pub static CANON: std::sync::atomic::AtomicBool = std::sync::atomic::AtomicBool::new(false);
+fn canon() -> bool {
+    CANON.load(std::sync::atomic::Ordering::Relaxed)
+}
+
 impl Out {
     pub fn cat(&self) -> u8 {
         match self {
@@ -78,6 +84,14 @@ impl Out {
         }
     }
     pub fn show(&self) -> String {
+        if canon() {
+            return match self {
+                Out::Err(Er::FromNone) => "EN".into(),
+                Out::Err(Er::Other(k)) => format!("E{}", k),
+                Out::None => "N".into(),
+                Out::Some(t, v) => format!("S({};{})", t, show_val(v)),
+            };
+        }
         match self {
             Out::Err(Er::FromNone) => "Err(FromNone)".into(),
             Out::Err(Er::Other(k)) => format!("Err(E{})", k),
@@ -88,6 +102,20 @@ impl Out {
 }
 
 pub fn show_val(v: &Val) -> String {
+    if canon() {
+        return match v {
+            Val::F(b) | Val::Q(b, _, _) => format!("f:{:08x}", b),
+            Val::B(b) => format!("b:{}", *b as u8),
+            Val::S(s) => format!("s:{:08x},{:08x},{:08x}", s[0], s[1], s[2]),
+            Val::C(k, b) => format!("c{}:{:08x}", k, b),
+            Val::T(t, c, s) => format!(
+                "t:{}:{}:{}",
+                t,
+                c.map(|(k, b)| format!("c{}:{:08x}", k, b)).unwrap_or("-".into()),
+                s.map(|s| format!("s:{:08x},{:08x},{:08x}", s[0], s[1], s[2])).unwrap_or("-".into())
+            ),
+        };
+    }
     match v {
         Val::F(b) => format!("f32:{:?}#{:08x}", f32::from_bits(*b), b),
         Val::Q(b, m, s) => format!("q:{:?}#{:08x}[mm^{} s^{}]", f32::from_bits(*b), b, m, s),
